@@ -260,8 +260,11 @@ AllTakenDone(c, o) == o.nDone >= Len(o.taken)
 ShutdownT(o) == IF o.stopT >= 0 /\ o.limT >= 0 THEN Min2(o.stopT, o.limT)
                 ELSE IF o.stopT >= 0 THEN o.stopT ELSE o.limT
 
-(* the runner takes the sentinel only with a free slot in hand: also wait for the completion that ended a saturated phase *)
-TimeoutBase(o) == Max2(Max2(Max2(ShutdownT(o), o.lastTakeT) + PollPeriod, o.lastCbBT), o.lastUnsatT)
+(* the runner takes the sentinel only with a free slot in hand: also wait for the completion that ended a saturated phase. *)
+(* A prefetcher that was parked on the prefetch semaphore during that phase (P permits used up) is released by the runner   *)
+(* only then and needs one more poll period to see the request (seed-11 history A=2 P=0: stop at 3, slot free at 6,          *)
+(* sentinel at 9, return at 9 + W).                                                                                           *)
+TimeoutBase(o) == Max2(Max2(Max2(ShutdownT(o), o.lastTakeT), o.lastUnsatT) + PollPeriod, o.lastCbBT)
 
 Global(c, o, ev) ==
   LET nRun == o.nRun
